@@ -20,6 +20,8 @@ pub struct ModOutcome {
     pub path: String,
     /// declarations after expansion: (kind, name, public, has_body)
     pub decls: Vec<(String, String, bool, bool)>,
+    /// parallel to `decls`: is the declaration marked `extern`?
+    pub ext: Vec<bool>,
     pub diags: Vec<Diag>,
     pub lints: Vec<Diag>,
     pub ok: bool,
@@ -54,6 +56,16 @@ pub fn project_decl(d: &Declaration) -> (String, String, bool, bool) {
         }
         Declaration::Import { filename, .. } => ("import".into(), filename.clone(), false, false),
         Declaration::Poison(_) => ("poison".into(), String::new(), false, false),
+    }
+}
+
+pub fn is_extern(d: &Declaration) -> bool {
+    match d {
+        Declaration::Constant { flags, .. }
+        | Declaration::Function { flags, .. }
+        | Declaration::FunctionHead { flags, .. }
+        | Declaration::Structure { flags, .. } => flags.contains(DeclarationFlag::External),
+        _ => false,
     }
 }
 
@@ -137,6 +149,7 @@ fn run_multi_inner(files: &[(String, String)], upto: Upto, record: bool, keep_go
     for (filepath, declarations) in &modules {
         let mut m = ModOutcome { path: filepath.to_string_lossy().to_string(), ..Default::default() };
         m.decls = declarations.iter().map(project_decl).collect();
+        m.ext = declarations.iter().map(is_extern).collect();
         if let Err(errors) = resolver::check_surface_level_errors(declarations) {
             m.diags = errors.errors.iter().map(Diag::from_error).collect();
             surface_ok = false;
